@@ -33,6 +33,8 @@ def run(ctx):
     ctx.rule("R5", "the edit description given by the caller reaches do_edit unmodified (no field of an Edit is rewritten on the way)")
     ctx.rule("R6", "an edit leaves nothing behind that describes the old tree: every field of Root is rewritten by do_edit")
     r6(ctx)
+    ctx.rule("R7", "a document built from a text holds exactly that text (the 'fresh parse' side of the comparison)")
+    r7(ctx)
     ctx.rule("R4", "re-parse receives Some(&self.inner) (the edited tree) and its result is stored back into self.inner")
 
     do_edit = ctx.anchor("R1", r"^ast_grep_core::node::Root::<D>::do_edit$")
@@ -402,6 +404,31 @@ def r5(ctx):
                "no field of an Edit is assigned here" if not stores else
                "fields of the Edit are rewritten before it reaches do_edit (%s): the change applied to the text is not the one the caller described — "
                "the document no longer equals the caller's splice" % stores, where=f.loc())
+
+
+def r7(ctx):
+    """'a fresh parse of the same text' is the other side of the comparison: a document built from a text holds exactly that text.
+    A constructor that normalises its input (strips a BOM, converts line ends) makes a fresh parse of the edited document's text differ
+    from the edited document — in every byte range."""
+    from ..query import identity_flow
+    prog = ctx.prog
+    n = 0
+    for f, bi, si, st in prog.aggregates_of(r"^ast_grep_core::source::StrDoc$"):
+        if f.impl_trait or f.crate != "ast_grep_core":
+            continue
+        ops = dict(zip(st[2][1]["fields"], st[2][2]))
+        if "src" not in ops:
+            continue
+        n += 1
+        terms, foreign = identity_flow(prog, f, ops["src"], lambda g, o: o.kind == "param" and g.locals[o.ref].lstrip("&").startswith(("str", "alloc::string::String", "'")) or
+                                       (o.kind == "param" and "src" in field_path(o.proj)))
+        foreign = [x for x in foreign if not x.startswith("parameter")]
+        ok = bool(terms) and not foreign
+        ctx.ob("R7", "StrDoc built in %s keeps the given text" % f.id, ok,
+               "src = the text handed in (conversions only)" if ok else
+               "the document's text is computed from the given text by %s: a fresh parse of a text no longer has that text, so it differs from the edited document holding the same text" % sorted(set(foreign)),
+               where=f.loc(st[3]))
+    ctx.floor("R7", "StrDoc constructors", n, 1)
 
 
 def r6(ctx):
